@@ -507,6 +507,48 @@ def path_to(seen, state):
     return list(reversed(out))
 
 
+def define_value(P, rep):
+    """Conditions on `.define` names see the value that was given: a path that stores a definition knows whether a second operand
+    exists - without one a constant is stored, with one (and nothing more) that operand is."""
+    fn = "directive::Directive::parse"
+    dv = dvariants(P)
+    inv = {n: d for d, n in dv.items()}
+    if "Define" not in inv:
+        return
+    M = absint.Machine(P, max_depth=4, opaque={"expr::Expr::run", "parser::parse_file_internal"})
+    paths = M.explore(fn, M.arg_unknowns(fn), doms={sx.S("self*#d", 64, True): sx.dom_set([inv["Define"]])})
+    why = []
+    nstore = 0
+    for p in paths:
+        if p.exit != "Ok":
+            continue
+        ins = [e for e in p.events if e[0] == 'call' and e[1].endswith("::insert") and "defines" in str(e[2][0])]
+        if not ins:
+            continue
+        nstore += 1
+        value = str(ins[0][2][2])
+        second = None      # True: a second operand exists, False: it does not
+        exact = False
+        for e, t in p.conds:
+            sh = sx.show(e)
+            m = re.match(r"^\(slice::<impl \[T\]>::get\(opts\*:OpList\.0, 1\)(@\d+)?#d == ([01])\)$", sh)
+            if m:
+                second = (m.group(2) == "1") == t
+            m = re.match(r"^\(opts\*:OpList\.0#len == (\d+)\)$", sh)
+            if m and t:
+                second = int(m.group(1)) >= 2
+                exact = exact or int(m.group(1)) == 2
+        if second is None:
+            why.append("a definition is stored without looking for a value behind the name (stored: %s): `#define FOO 5` makes FOO stand for that constant, `#if FOO` takes the wrong arm" % value[:30])
+        elif second and not (exact and "get(opts*:OpList.0, 1)" in value):
+            why.append("with a value behind the name the stored value is %s" % value[:40])
+        elif not second and not value.startswith("Expr::Const("):
+            why.append("without a value the stored value is %s" % value[:40])
+    if not nstore:
+        why.append("no path stores a definition")
+    rep.ob("C08.define|value", not why, "`.define NAME value` stores the value, `.define NAME` a constant; more operands are refused" if not why else why[0])
+
+
 def run(tier):
     rep = Reporter("C08", tier, "model_checking", "protocol tables extracted from MIR by abstract interpretation (Directive::parse, skip with havocked nesting counter, parse_iter), composed with the reference semantics as a product automaton and explored exhaustively (BFS) to nesting depth %d" % DEPTH)
     rep.explanation = ("Decides the extracted (mode, line class, counter) protocol against 'first true arm, else when none, unselected lines inert' "
@@ -558,6 +600,7 @@ def run(tier):
                     bad_callees.add("Vec<String>::push (message list?) in %s" % k)
     rep.ob("C08.inert", not bad_callees, "nothing effectful is reachable from the scanner (no directive handling, item push, symbol setter, message, error or panic): skipped text — even unparsable text — has no effect" if not bad_callees else
            "while skipping, the scanner can reach %s" % sorted(bad_callees))
+    define_value(P, rep)
     if miss or "EndIf" not in scan:
         return rep
     malformed = malformed_classes(P)
